@@ -1333,10 +1333,19 @@ def splits_and_bookkeeping(chk, ctx, rng, tier):
         lo, hi = SIZES[tier][1]
         n = int(rng.integers(lo, hi + 1)); xx, _ = gen_grid(rng, n)
         case_split1d(chk, ctx, xx, gen.density(rng, (n,)))
+        # the same number of points on differently spaced grids, in the same process: whatever a split function derives from the grid
+        # (cell widths) must come from the grid it is given, not from an earlier one of equal length
+        for kind in ('uniform', 'random', 'clustered'):
+            if n > 2:
+                case_split1d(chk, ctx, gen_grid(rng, n, kind)[0], gen.density(rng, (n,)))
         lo, hi = SIZES[tier][2]
         n = int(rng.integers(lo, hi + 1)); xx, _ = gen_grid(rng, n)
         for which in (1, 2):
             case_split2(chk, ctx, which, xx, gen.density(rng, (n, n)))
+        if n > 2:
+            x2 = gen_grid(rng, n, 'random')[0]
+            for which in (1, 2):
+                case_split2(chk, ctx, which, x2, gen.density(rng, (n, n)))
         for d in (1, 2, 3, 4, 5):
             lo, hi = SIZES[tier][d]
             n = int(rng.integers(lo, hi + 1)); xx, _ = gen_grid(rng, n)
